@@ -2,19 +2,15 @@ import ExponaxModel.Model.Ops
 import ExponaxModel.Model.Layout
 /-
 Mirror of `jnp.fft.rfftn` / `jnp.fft.irfftn` over the spatial axes as the DFT
-sums they compute (DESIGN §4-B3).  Fields are functions of the C-order flat
-index; `memoN` tabulates a stage so that execution is not exponential (it is
-the identity on the index range, lemma `memoN_apply`).
+sums they compute (DESIGN §4-B3).  Fields are arrays in C order (`tab n f` is
+the array `[f 0, …, f (n-1)]`); every stage is a concrete array so that the
+compiled driver shares work.
 -/
 namespace Exponax.Transform
 open Exponax.Layout
 
-/-- tabulate `f` on `0..n-1` (identity there; `dflt` outside) -/
-def memoD {α : Type} (dflt : α) (n : Nat) (f : Nat → α) : Nat → α :=
-  let a := (Array.range n).map f
-  fun i => a.getD i dflt
-
-def memoN {K : Type} [Zero K] (n : Nat) (f : Nat → K) : Nat → K := memoD 0 n f
+/-- the array `[f 0, …, f (n-1)]` -/
+def tab {α : Type} (n : Nat) (f : Nat → α) : Array α := (Array.range n).map f
 
 section
 variable {K : Type} [Add K] [Sub K] [Mul K] [Div K] [Neg K] [Zero K] [One K] [NatCast K] [IntCast K]
@@ -27,17 +23,19 @@ def twiddle (N : Nat) (m : Int) : K :=
 /-- digit `d` (axis `d`) of the flat spatial index `j` on the `N^D` grid -/
 def digit (D N : Nat) (j d : Nat) : Nat := (j / N ^ (D - 1 - d)) % N
 
-/-- `k·j` for stored mode `h` (flat, half layout) and grid point `j` (flat) -/
-def phase (D N : Nat) (h j : Nat) : Int :=
-  let hv := unflatten (wavenumberShape D N) h
-  ((List.range D).map (fun d => wn D N hv d * (digit D N j d : Int))).foldl (· + ·) 0
+/-- `k·j` for a wavenumber vector `k` and grid point `j` (flat) -/
+def phaseK (D N : Nat) (k : List Int) (j : Nat) : Int :=
+  ((List.range D).map (fun d => k.getD d 0 * (digit D N j d : Int))).foldl (· + ·) 0
+
+/-- `k(h)·j` for stored mode `h` (flat, half layout) and grid point `j` (flat) -/
+def phase (D N : Nat) (h j : Nat) : Int := phaseK D N (wnFlat D N h) j
 
 /-- `rfftn` of one channel: `û_h = Σ_j u_j e^{-2πi k(h)·j/N}` -/
-def rfftnM (D N : Nat) (u : Nat → K) : Nat → K :=
-  let tab := memoN N (fun m => twiddle N (m : Int))
-  let ph := memoD (0 : Int) (numModes D N * N ^ D) (fun t => Int.emod (phase D N (t / N ^ D) (t % N ^ D)) (N : Int))
-  memoN (numModes D N) (fun h =>
-    sumRange (N ^ D) (fun j => u j * tab ((ph (h * N ^ D + j)).toNat)))
+def rfftnM (D N : Nat) (u : Array K) : Array K :=
+  let tw : Array K := tab N (fun m => twiddle N (m : Int))
+  tab (numModes D N) (fun h =>
+    let k := wnFlat D N h
+    sumRange (N ^ D) (fun j => u.getD j 0 * tw.getD (Int.emod (phaseK D N k j) (N : Int)).toNat 0))
 
 /-- weight of a stored mode in the c2r transform: 1 on the last-axis DC / Nyquist columns, else 2 -/
 def herm_weight (D N : Nat) (h : Nat) : Nat :=
@@ -46,12 +44,14 @@ def herm_weight (D N : Nat) (h : Nat) : Nat :=
 
 /-- `irfftn` of one channel (valid for non-Hermitian input too):
     `u_j = N^{-D} Σ_h w_h Re(c_h e^{+2πi k(h)·j/N})` -/
-def irfftnM (D N : Nat) (c : Nat → K) : Nat → K :=
-  let tab := memoN N (fun m => twiddle N (-(m : Int)))
-  let ph := memoD (0 : Int) (numModes D N * N ^ D) (fun t => Int.emod (phase D N (t / N ^ D) (t % N ^ D)) (N : Int))
-  memoN (N ^ D) (fun j =>
+def irfftnM (D N : Nat) (c : Array K) : Array K :=
+  let tw : Array K := tab N (fun m => twiddle N (-(m : Int)))
+  let ks : Array (List Int) := tab (numModes D N) (wnFlat D N)
+  let ws : Array Nat := tab (numModes D N) (herm_weight D N)
+  tab (N ^ D) (fun j =>
     sumRange (numModes D N) (fun h =>
-      lit (herm_weight D N h) * HasRe.re (c h * tab ((ph (h * N ^ D + j)).toNat))) / lit (N ^ D))
+      lit (ws.getD h 0) * HasRe.re (c.getD h 0 * tw.getD (Int.emod (phaseK D N (ks.getD h []) j) (N : Int)).toNat 0))
+      / lit (N ^ D))
 
 end
 end Exponax.Transform
